@@ -3,14 +3,14 @@
 
 namespace hz {
 static const Info I = {
-    "C07", 1, 65, 60000, true, true,
+    "C07", 1, 69, 60000, true, true,
     "rapidcheck generates (program bytes, schedule bytes, fault bytes); the program decodes to 2..4 contenders "
     "(coroutine or thread flavour), 1..3 rounds each of {co_await lock, lock().wait(), manual subscribe, try_lock} x "
     "{release discarded, ownership destroyed, co_await release / kept suspend point, release on a helper thread, parallel_resume(release()) - the next owner continues in a new detached thread} with harness yield points; "
     "the schedule drives the virtual runtime (sparse 1..4 preemptions, dense, or zero) plus a systematic sweep of every 1-preemption schedule "
     "of generated programs. Non-trivial = at least one lock request had to wait AND at least one context switch happened at a scheduling point "
     "inside a library operation; distinct = distinct 64-bit hash of (decoded program, executed switch trace).",
-    scen_mutex::class_names, 6, scen_mutex::counter_names, 5};
+    scen_mutex::class_names, 6, scen_mutex::counter_names, 6};
 const Info &info() { return I; }
 void run_case(Reader &r) { scen_mutex::run(r, scen_mutex::O_EXCLUSION); }
 std::string describe(Reader &r) { return scen_mutex::describe(scen_mutex::decode(r)); }
